@@ -234,6 +234,9 @@ func splitWellFormed(m []byte) (frames [][]byte, rest []byte, soft bool) {
 	}
 }
 
+// streamFailures counts runs after which Serve had not returned or goroutines of the package were left behind.
+var streamFailures int
+
 type runOut struct {
 	returned bool
 	digest   string
@@ -267,6 +270,7 @@ func respSummary(f wframe) string {
 func (e *streamEnv) runStream(t testing.TB, tr *tracer, run string, prefix [][]byte, rest []byte) runOut {
 	e.prep(t)
 	tr.emit("RunBegin", kv{"run": run})
+	gbase := len(sftpGoroutines()) // goroutines left behind by earlier (already reported) cases
 	s := newSrvSession(t, tr, e.o)
 	e.fill(s)
 	fd0 := len(fdTargets(e.root + "/"))
@@ -286,8 +290,15 @@ func (e *streamEnv) runStream(t testing.TB, tr *tracer, run string, prefix [][]b
 	// the controller goroutine is not awaited by Serve; wait for it before looking at the responses
 	waitFor(5*time.Second, s.finiSeen)
 	s.conn.Close()
-	left := waitNoSftpGoroutines(3 * time.Second)
-	out.gor = len(left)
+	var left []string
+	waitFor(3*time.Second, func() bool { left = sftpGoroutines(); return len(left) <= gbase })
+	out.gor = max(len(left)-gbase, 0)
+	if out.gor == 0 {
+		left = nil
+	}
+	if !out.returned || out.gor > 0 {
+		streamFailures++
+	}
 	if e.o.kind == "server" {
 		out.fds = len(fdTargets(e.root+"/")) - fd0
 	}
@@ -458,6 +469,9 @@ func TestVerif_Streams(t *testing.T) {
 					caseNo++
 					if caseNo <= skip || caseNo > skip+limit {
 						continue
+					}
+					if streamFailures >= 6 {
+						continue // Serve not returning / goroutines left behind is on record; every further case costs seconds
 					}
 					// quick tier: every length-field case, a seeded fifth of the cut / type-byte / garbage cases
 					if !vThorough() && !strings.HasPrefix(mu.desc, "len ") && (caseNo+int(vSeed()))%5 != 0 {
